@@ -192,6 +192,9 @@ class Ctx:
         for a in word or []:
             self.node.add_child(Node(a))
         self.has_children = bool(self.node.children)
+        from metapype.eml import rule as mrule
+        self.robj = mrule.Rule(rule_name)
+        self.other = Node("zzOtherNode", id="other")
 
 
 def run_one(ctx, s):
@@ -225,6 +228,30 @@ def run_one(ctx, s):
             return v, probs
     ff_ok = ff is None
     co_ok = not errs
+    # an error list that already holds another node's entry (as inside a tree validation), and a re-used Rule object:
+    # same decision, earlier entry kept
+    try:
+        pre = [(ValidationError.ATTRIBUTE_REQUIRED, "earlier entry of another node", ctx.other, "zz")]
+        errs2 = list(pre)
+        ruleinfo.validate_node(node, ctx.rule, ctx.direct, errs2)
+        errs3 = list(pre)
+        ctx.robj.validate_rule(node, errs3)
+        r_exc = None
+        try:
+            ctx.robj.validate_rule(node)
+        except MetapypeRuleError as e:
+            r_exc = e
+    except Exception as e:  # noqa
+        probs.append(problem("foreign_exception", case, expected="None or rule error", observed=repr(e), rule=ctx.rule,
+                             mode="prefilled-list/reused-rule", exc=type(e).__name__))
+        return v, probs
+    for label, ex in (("validate.node", errs2), ("reused-rule", errs3)):
+        if ex[:1] != pre or [e[0] for e in ex[1:]] != [e[0] for e in errs]:
+            probs.append(problem("prefilled_list_changes_result", case, expected=[e[0].name for e in errs],
+                                 observed=[getattr(e[0], "name", repr(e[0])) for e in ex[1:]], rule=ctx.rule, mode=label))
+    if (r_exc is None) != ff_ok:
+        probs.append(problem("reused_rule_object_disagrees", case, expected="accepted" if ff_ok else repr(ff),
+                             observed="accepted" if r_exc is None else repr(r_exc), rule=ctx.rule))
     if ff_ok != co_ok:
         probs.append(problem("modes_disagree", case, expected="same decision in both modes",
                              observed={"fail_fast_ok": ff_ok, "errs": [e[0].name for e in errs]}, rule=ctx.rule))
